@@ -43,6 +43,10 @@ Deciding monitor M (boundary, public API only), three parts:
                versions, get_versions()) must show the model's versions, and
   M.vobject-format  the text formatted right after the mutation must be a normal form
                of the model (same oracle as M.history-mid).
+  M.normalform-strict  irregular-blanks class only: when ``Changelog(T, strict=True)`` returned, THAT object
+               is "a parsed changelog" as well - the same normal-form check runs on it (keys suffixed
+               ``/strictly-parsed-object``); and the text formatted from the lenient object is fed back as an
+               input text of its own (totality, strict <=> warned, normal form once more).
   N.twin       NON-DECIDING note: the history without its mid-history formats,
                run on a second object, ends in the same text (layout purity of
                str(); the statement is silent on it).
@@ -113,7 +117,24 @@ RULE = ('Texts: 1-3 generated well-formed blocks (urgency comments, extra key=va
         'interleaved with ordinary edits, new_block calls (the block moves to an older index) and mid-history formats; an '
         'enumerated matrix (empty+new_block | one block | three blocks) x (every hand-over path | every read path, every block) '
         'x (seven mutations) x (mutate | mutate,format | format,mutate | mutate,edit,format | mutate twice) is run as well.  '
-        'Counters vobj:mutated:<origin> / vobj:mutated-attr:<attribute> count only mutations that changed str(object).')
+        'Counters vobj:mutated:<origin> / vobj:mutated-attr:<attribute> count only mutations that changed str(object).  '
+        'Irregular-blanks class: headings and trailers of the deb-changelog(5) shape whose blanks between the items are runs '
+        'of 2, 3, 4, 7 spaces, one or two tabs or space/tab mixtures, in 23 slots (heading: package|(, )|first distribution, '
+        'between distributions, before and after ";", around "=" of urgency, urgency value|comment, inside the comment, before '
+        'and after ",", around "=" of an extra pair, inside its value, end of line; trailer: after " --", inside the name, '
+        'name|<, inside <mail>, >|date, day-of-week|day, inside the date, end of line).  Enumerated: every slot x 11 runs on a '
+        'plain block (two distributions) and a rich block (three distributions, urgency comment, two extra pairs, three-word '
+        'name), plus every run in all free-form slots of the heading / the trailer / both at once; each as the only block, as '
+        'the first of two, the last of two and the middle of three different regular blocks (quick: the only-block placement '
+        'plus one of the others in rotation).  Random: 1-3 blocks, at least one with 1-5 slots respelled (own run per slot, '
+        'per gap for 40% of the multi-gap slots; runs up to 16 spaces), the others regular; 10% get one ordinary mutation on '
+        'top.  Which slots the live parser accepts silently is measured, not assumed (counters ws:accepted-silently:<slot>, '
+        'ws:warned:<slot> on single-slot texts).  Every such text goes through the text oracle with both allow_empty_author '
+        'values; in addition the strictly parsed object (when strict returns) is checked as a normal form, and the formatted '
+        'output is run through the text oracle as an input of its own.  A text of this class is non-trivial when its normal '
+        'form was evaluated.  Histories: the enumerated 3-space and space-tab-space spellings as the only block / the middle '
+        'of three blocks x (every attribute assignment, add_change, new_block) x (edit | format, edit), and random histories '
+        '(multi-block history generator, well-formed argument values) on random texts of the class.')
 ASSUMPTIONS = [
     'input texts are str (the constructor decodes bytes itself; undecodable bytes are outside "input text")',
     '"can be formatted" = str(changelog) does not raise ChangelogCreateError; such cases are skipped and counted',
@@ -160,6 +181,19 @@ ASSUMPTIONS = [
     'changelog under test; reading a version from a block whose raw version string is not a valid version (mutated texts) may '
     'raise - counted (vobj:read-unreadable), nothing held; Changelog-level views are compared only when the model versions '
     'they have to construct are valid or unset',
+    'irregular-blanks class: nothing is demanded of the FIRST parse of such a heading or trailer (whether it is accepted, '
+    'warned about, which blanks are kept or normalised) beyond totality and strict <=> warned; demanded is what the statement '
+    'says of any parsed changelog that can be formatted: re-parsing str(c) gives the same blocks (all nine observables) and '
+    'str() of the re-parsed object is the identical text - compared between the FIRST output and the second, so a '
+    'normalisation that needs two rounds to settle is a violation, an idempotent one (on input or on output) is not',
+    'a changelog returned by Changelog(T, strict=True) is "a parsed changelog" in the sense of the normal-form clause; its '
+    'output is re-parsed with strict=True as well (the same way it was parsed), leniently when that raises ChangelogParseError '
+    '(counted, not judged).  That the strictly and the leniently parsed object show the '
+    'same blocks is NOT in the statement: a difference is a non-deciding note (note:strict-and-lenient-objects-differ)',
+    'the formatted output of an accepted text is itself an input text (the quantifier is "every input text"): it is run '
+    'through the totality / strict <=> warned / normal-form oracle once (no further recursion)',
+    'histories of the irregular-blanks class pass regular argument values only (single blanks): whether an ASSIGNED '
+    'distributions / author / date string with blank runs must read back verbatim is left open',
 ]
 ANCHORS = ['debian.changelog:Changelog.parse_changelog',
            'debian.changelog:Changelog._parse_error',
@@ -179,6 +213,8 @@ HISTS = {'quick': 4000, 'thorough': 300000}
 MTEXTS = {'quick': 4000, 'thorough': 200000}     # multi-block texts, irregular construct in a non-last block
 MHISTS = {'quick': 3000, 'thorough': 150000}     # histories on >= 2 blocks: older-block edits, mid-history formats
 VHISTS = {'quick': 3000, 'thorough': 150000}     # Version-object histories (caller's / read objects mutated later)
+WTEXTS = {'quick': 1600, 'thorough': 80000}      # random texts of the irregular-blanks class
+WHISTS = {'quick': 500, 'thorough': 25000}       # random histories starting from such texts
 MIN_PAIRS = 100      # design floor is 40; the enumeration part alone yields ~200 on the current tree
 
 _Q_COUNTERS = {
@@ -615,6 +651,32 @@ def cases(ctx):
             yield case
         idx += 1
 
+    # 1f. enumerated irregular-blanks class: every slot x every run on the two fixed blocks, placed as the only block,
+    #     first of two, last of two, middle of three regular blocks; histories on the 3-space / space-tab-space spellings
+    wn = 0
+    for slots, run, bi, gaps in g.ws_enumerated():
+        ls = g.ws_block(g.WS_BASES[bi], gaps)
+        places = WS_PLACES if not ctx.quick else ['only', WS_PLACES[1 + wn % 3]]
+        for place in places:
+            if ctx.mine(idx):
+                yield {'kind': 'text', 'text': '\n'.join(_ws_place(ls, place)) + '\n', 'aea': [False, True],
+                       'src': 'ws-enum', 'ws': {'slots': slots, 'runs': [g.ws_run_class(run)], 'pos': place}}
+            idx += 1
+        if len(slots) == 1 and run in ('   ', ' \t '):
+            for en, ops in enumerate(edits):
+                place = 'only' if (wn + en) % 2 == 0 else 'middle-of-3'
+                t = 0 if place == 'only' else 1
+                how = HANDLES[(wn + en) % 4]
+                ops = [(['bset', t] + o[2:] + [how]) if o[0] == 'bset' else (['badd', t, o[1], how] if o[0] == 'add_change' else o)
+                       for o in ops]
+                if (wn + en) % 4 >= 2:
+                    ops = [['fmt']] + ops
+                if ctx.mine(idx):
+                    yield {'kind': 'hist', 'start': '\n'.join(_ws_place(ls, place)) + '\n', 'aea': False, 'ops': ops,
+                           'src': 'ws-enum'}
+                idx += 1
+        wn += 1
+
     # 2. random mutated texts
     r = ctx.rng('texts')
     for i in range(ctx.size(TEXTS['quick'], TEXTS['thorough'])):
@@ -637,6 +699,18 @@ def cases(ctx):
         text = '\n'.join(lines) + ('\n' if r.random() < 0.95 else '')
         yield {'kind': 'text', 'text': text, 'aea': [False, True], 'src': 'multi', 'irr': info}
 
+    # 2c. random texts of the irregular-blanks class
+    r = ctx.rng('wtexts')
+    for i in range(ctx.size(WTEXTS['quick'], WTEXTS['thorough'])):
+        lines, info = g.ws_text(r)
+        muts = []
+        if r.random() < 0.1:
+            lines, muts = g.mutate(r, lines, 1)
+        text = '\n'.join(lines) + ('\n' if r.random() < 0.95 else '')
+        yield {'kind': 'text', 'text': text, 'aea': [False, True], 'src': 'ws', 'muts': muts,
+               'ws': {'slots': info['slots'], 'runs': info['runs'],
+                      'pos': 'random-mutated' if muts else 'random-first' if info['k'] == 0 else 'random-later'}}
+
     # 3. editing histories
     r = ctx.rng('hists')
     for i in range(ctx.size(HISTS['quick'], HISTS['thorough'])):
@@ -653,6 +727,14 @@ def cases(ctx):
     r = ctx.rng('vhists')
     for i in range(ctx.size(VHISTS['quick'], VHISTS['thorough'])):
         yield gen_history_vobj(r, fixtures)
+
+    # 3d. histories that start from a random text of the irregular-blanks class (regular argument values)
+    r = ctx.rng('whists')
+    for i in range(ctx.size(WHISTS['quick'], WHISTS['thorough'])):
+        lines, _info = g.ws_text(r)
+        case = gen_history_multi(r, fixtures, start_lines=lines)
+        case['src'] = 'ws'
+        yield case
 
 
 # Version-object class -------------------------------------------------------
@@ -797,6 +879,20 @@ def _holds(op):
     return isinstance(val, dict) and bool(val.get('keep'))
 
 
+WS_PLACES = ['only', 'first-of-2', 'last-of-2', 'middle-of-3']
+
+
+def _ws_place(ls, place):
+    """The block `ls` alone or among the fixed regular blocks."""
+    if place == 'first-of-2':
+        return ls + ENUM_BLOCKS[1]
+    if place == 'last-of-2':
+        return ENUM_BLOCKS[0] + ls
+    if place == 'middle-of-3':
+        return ENUM_BLOCKS[0] + ls + ENUM_BLOCKS[2]
+    return list(ls)
+
+
 def _fixture_run(r, fixtures, lo=2, hi=4):
     """lo..hi consecutive blocks of one fixture (None when no fixture has that many)."""
     cands = [blocks for _n, _l, blocks in fixtures if len(blocks) >= lo]
@@ -832,12 +928,14 @@ def _assign_value(r, attr):
             'author': g.author, 'date': g.date}[attr](r)
 
 
-def gen_history_multi(r, fixtures):
+def gen_history_multi(r, fixtures, start_lines=None):
     """A history on a changelog that has (or first builds) >= 2 blocks; most edits address an older block through
-    one of the public handles, and at least one format happens before the last edit."""
+    one of the public handles, and at least one format happens before the last edit.  start_lines: use this text."""
     start, aea, ops = None, False, []
-    k = r.random()
-    if k < 0.28:
+    k = r.random() if start_lines is None else None
+    if k is None:
+        start = '\n'.join(start_lines) + '\n'
+    elif k < 0.28:
         start = '\n'.join(g.wellformed(r, nblocks=r.choice([2, 2, 3, 4]))) + '\n'
     elif k < 0.38 and _fixture_run(r, fixtures) is not None:
         start = '\n'.join(l for b in _fixture_run(r, fixtures) for l in b) + '\n'
@@ -974,10 +1072,27 @@ def _parse(text, aea, strict=False):
     return c, [str(x.message) for x in w]
 
 
-def normal_form(ctx, c, aea, small, mon, eof_hint=False, expect=None):
+class _Suffixed(object):
+    """ctx whose violation keys get a suffix (everything else is the real ctx)."""
+
+    def __init__(self, ctx, suffix):
+        self._ctx, self._suffix = ctx, suffix
+
+    def __getattr__(self, name):
+        return getattr(self._ctx, name)
+
+    def violation(self, key, msg, case=None):
+        self._ctx.violation(key + self._suffix, msg, case)
+
+
+def normal_form(ctx, c, aea, small, mon, eof_hint=False, expect=None, suffix='', strict=False):
     """c: a live Changelog.  Returns True when the check was evaluated.
-    expect: optional history model (list of snap() dicts) the re-parsed blocks must equal as well."""
+    expect: optional history model (list of snap() dicts) the re-parsed blocks must equal as well.
+    strict: c was parsed with strict=True - its output is re-parsed the same way (leniently when that raises
+    ChangelogParseError: the statement does not say the output of a strictly accepted text is strictly acceptable)."""
     from debian import changelog as cl
+    if suffix:
+        ctx = _Suffixed(ctx, suffix)
     try:
         s = str(c)
     except cl.ChangelogCreateError:
@@ -988,7 +1103,14 @@ def normal_form(ctx, c, aea, small, mon, eof_hint=False, expect=None):
         return False
     ctx.mon(mon)
     try:
-        c2, w2 = _parse(s, aea)
+        c2 = None
+        if strict:
+            try:
+                c2, w2 = _parse(s, aea, strict=True)
+            except cl.ChangelogParseError:
+                ctx.count('reparse-strict-refused-output-of-strictly-accepted-text')
+        if c2 is None:
+            c2, w2 = _parse(s, aea)
     except Exception as e:
         ctx.violation('reparse-of-output-raises/%s' % type(e).__name__, '%r on output %r' % (e, s), small)
         return True
@@ -1062,9 +1184,13 @@ def normal_form(ctx, c, aea, small, mon, eof_hint=False, expect=None):
     return True
 
 
-def check_text(ctx, text, aea, info=None):
+def check_text(ctx, text, aea, info=None, ws=None):
+    """ws: not None for texts of the irregular-blanks class (the dict is carried into the witness so that a replay runs
+    the additional checks of that class)."""
     from debian import changelog as cl
     small = {'kind': 'text', 'text': text, 'aea': [aea]}
+    if ws is not None:
+        small['ws'] = ws
     # --- totality of the lenient constructor (the one observed parse of this text)
     _STATE['gate'] = True
     try:
@@ -1099,9 +1225,9 @@ def check_text(ctx, text, aea, info=None):
         for m in sites:
             ctx.count('fmt:site-on-text-with-special:' + m)
     # --- strict raises <=> lenient warned
-    raised, sw = False, []
+    raised, sw, cs = False, [], None
     try:
-        _c, sw = _parse(text, aea, strict=True)
+        cs, sw = _parse(text, aea, strict=True)
     except cl.ChangelogParseError as e:
         raised = True
         try:
@@ -1140,6 +1266,28 @@ def check_text(ctx, text, aea, info=None):
             ctx.count('normalform:eof-block')
     if info is not None:
         info.update(nblocks=len(c), sites=sites, evaluated=evaluated, fmt_reported=bool(reported))
+    if ws is not None:
+        # the strictly parsed object is "a parsed changelog" too
+        if cs is not None and not warned and not sw:
+            if normal_form(ctx, cs, aea, small, 'M.normalform-strict', suffix='/strictly-parsed-object', strict=True):
+                ctx.count('ws:strict-object-normalform')
+            try:
+                d = _diff(snap_all(cs), snap_all(c))
+            except Exception:
+                d = None
+            if d is not None:
+                _note(ctx, 'strict-and-lenient-objects-differ', 'block %r attribute %s on %r' % (d[0], d[1], text))
+        # the formatted output is an input text of its own
+        if evaluated:
+            try:
+                out = str(c)
+            except Exception:
+                out = None
+            if info is not None:
+                info['output_same'] = (out == text)
+            if out is not None and out != text:
+                ctx.count('ws:output-as-input')
+                check_text(ctx, out, aea)
     return warned
 
 
@@ -1609,15 +1757,45 @@ def twin_check(ctx, c, case, aea):
               'without them in %r' % (a, b))
 
 
+def _count_ws(ctx, ws, info):
+    """Reach of the irregular-blanks class, measured on the live parse (evidence and floors only)."""
+    slots, runs = ws.get('slots') or [], ws.get('runs') or []
+    outcome = 'warned' if info['sites'] else 'accepted-silently'
+    ctx.count('ws:texts')
+    ctx.count('ws:' + outcome)
+    ctx.count('ws:position:%s' % ws.get('pos', 'replay'))
+    for s in slots:
+        ctx.count('ws:slot:' + s)
+        if info['evaluated']:
+            ctx.count('ws:normalform:' + s)
+    if len(slots) == 1:
+        ctx.count('ws:%s:%s' % (outcome, slots[0]))
+    for rc in runs:
+        ctx.count('ws:run:' + rc)
+        if info['evaluated'] and not info['sites']:
+            ctx.count('ws:normalform-accepted-silently-run:' + rc)
+    if info['evaluated']:
+        ctx.count('ws:normalform')
+        if info['nblocks'] >= 2:
+            ctx.count('ws:normalform-on-2+-blocks')
+        if not info['sites'] and 'output_same' in info:     # library's choice: evidence only, never floored
+            ctx.count('ws:output-equals-input' if info['output_same'] else 'ws:output-differs-from-input')
+    else:
+        ctx.count('ws:unformattable')
+
+
 def run_case(ctx, case):
     kind = case['kind']
     if kind == 'text':
         text = case['text']
-        warned = False
+        warned = ws_evaluated = False
         irr = case.get('irr')
         for aea in case.get('aea', [False, True]):
             info = {}
-            warned = check_text(ctx, text, bool(aea), info) or warned
+            warned = check_text(ctx, text, bool(aea), info, ws=case.get('ws')) or warned
+            if case.get('ws') is not None and info:
+                _count_ws(ctx, case['ws'], info)
+                ws_evaluated = ws_evaluated or info['evaluated']
             if irr and info:
                 # reach of the class "irregular construct in a non-last block" (evidence, measured on the live parse)
                 ctx.count('multi:texts')
@@ -1634,7 +1812,7 @@ def run_case(ctx, case):
                         ctx.count('fmt:reported-on-2+-blocks')
         off_path = any(g.line_class(l) not in ('heading-ok', 'heading-rich', 'blank-ish', 'change-ok', 'trailer-ok')
                        for l in text.split('\n'))
-        if warned or off_path:
+        if warned or off_path or ws_evaluated:
             ctx.nontrivial(case={'text': text})
         ctx.count('src:' + case.get('src', 'replay').split(':')[0])
     elif kind == 'hist':
@@ -1668,6 +1846,14 @@ def run_case(ctx, case):
             if st['done'] >= 2:
                 ctx.nontrivial(case={'start': case.get('start'), 'ops': case['ops']})
         ctx.count('hsrc:' + case.get('src', 'random'))
+        if case.get('src') in ('ws', 'ws-enum'):
+            ctx.count('ws:hist')
+            if evaluated:
+                ctx.count('ws:hist:final-format')
+                if st['older']:
+                    ctx.count('ws:hist:final-format-after-older-block-edit')
+                if st['edit-after-fmt']:
+                    ctx.count('ws:hist:final-format-after-mid-format-and-edit')
     else:
         raise ValueError('unknown case kind %r' % kind)
 
